@@ -211,29 +211,32 @@ namespace c16
     };
   };
 
-  /// vector-valued polynomial field (dim_ components) as feat3 analytic function
-  template<int dim_>
+  /// vector-valued polynomial field (nc_ components) as feat3 analytic function
+  template<int dim_, int nc_ = dim_>
   class PolyVecFunction : public Analytic::Function
   {
   public:
     static constexpr int domain_dim = dim_;
-    typedef Analytic::Image::Vector<dim_> ImageType;
+    typedef Analytic::Image::Vector<nc_> ImageType;
     static constexpr bool can_value = true, can_grad = true, can_hess = true;
-    std::array<Poly, dim_> comp;
-    explicit PolyVecFunction(const std::array<Poly, dim_>& c) : comp(c) {}
+    std::vector<Poly> comp;
+    explicit PolyVecFunction(const std::vector<Poly>& c) : comp(c) {}
     template<typename Traits_>
     class Evaluator : public Analytic::Function::Evaluator<Traits_>
     {
     public:
       typedef typename Traits_::DataType DataType; typedef typename Traits_::PointType PointType;
       typedef typename Traits_::ValueType ValueType; typedef typename Traits_::GradientType GradientType; typedef typename Traits_::HessianType HessianType;
-      const std::array<Poly, dim_>& c;
+      const std::vector<Poly>& c;
       explicit Evaluator(const PolyVecFunction& f) : c(f.comp) {}
-      ValueType value(const PointType& x) { ValueType v; for(int i = 0; i < dim_; ++i) v[i] = c[(size_t)i].template val<DataType>(x); return v; }
-      GradientType gradient(const PointType& x) { GradientType g; for(int i = 0; i < dim_; ++i) for(int a = 0; a < dim_; ++a) g[i][a] = c[(size_t)i].template der<DataType>(x, a); return g; }
-      HessianType hessian(const PointType& x) { HessianType h; for(int i = 0; i < dim_; ++i) for(int a = 0; a < dim_; ++a) for(int b = 0; b < dim_; ++b) h[i][a][b] = c[(size_t)i].template der2<DataType>(x, a, b); return h; }
+      ValueType value(const PointType& x) { ValueType v; for(int i = 0; i < nc_; ++i) v[i] = c[(size_t)i].template val<DataType>(x); return v; }
+      GradientType gradient(const PointType& x) { GradientType g; for(int i = 0; i < nc_; ++i) for(int a = 0; a < dim_; ++a) g[i][a] = c[(size_t)i].template der<DataType>(x, a); return g; }
+      HessianType hessian(const PointType& x) { HessianType h; for(int i = 0; i < nc_; ++i) for(int a = 0; a < dim_; ++a) for(int b = 0; b < dim_; ++b) h[i][a][b] = c[(size_t)i].template der2<DataType>(x, a, b); return h; }
     };
   };
+  inline std::vector<Poly> gen_polys(vf::Tape& t, int n, int dim, int p, bool tensor) { std::vector<Poly> v; for(int i = 0; i < n; ++i) v.push_back(gen_poly(t, dim, p, tensor)); return v; }
+  inline vf::J polys_json(const std::vector<Poly>& v) { vf::J a = vf::J::arr(); for(auto& p : v) a.add(p.json()); return a; }
+  inline int polys_degree(const std::vector<Poly>& v) { int d = 0; for(auto& p : v) d = std::max(d, p.degree()); return d; }
 
   // ------------------------------------------------------------------------------------------------
   // mesh generator
